@@ -266,32 +266,34 @@ func drawTarget(rt *rapid.T) *target {
 // plaintext lengths on the segment grid
 // ---------------------------------------------------------------------------------------------
 
+var lenKinds = []string{"0", "1", "f-1", "f", "f+1", "f+s-1", "f+s", "f+s+1", "f+s-1", "f+s", "f+s+1", "f+ks-1", "f+ks", "f+ks+1", "f+ks-1", "f+ks", "f+ks+1", "random", "random", "random"}
+
 func drawPlaintextLen(rt *rapid.T, c *streamref.Config, maxSegs int) int {
 	f, s := c.FirstCap(), c.Cap()
 	k := rapid.IntRange(2, maxSegs-2).Draw(rt, "gridk")
 	n := 0
-	switch rapid.IntRange(0, 13).Draw(rt, "lenkind") {
-	case 0:
+	switch rapid.SampledFrom(lenKinds).Draw(rt, "lenkind") {
+	case "0":
 		n = 0
-	case 1:
+	case "1":
 		n = 1
-	case 2:
+	case "f-1":
 		n = f - 1
-	case 3:
+	case "f":
 		n = f
-	case 4:
+	case "f+1":
 		n = f + 1
-	case 5:
+	case "f+s-1":
 		n = f + s - 1
-	case 6:
+	case "f+s":
 		n = f + s
-	case 7:
+	case "f+s+1":
 		n = f + s + 1
-	case 8:
+	case "f+ks-1":
 		n = f + k*s - 1
-	case 9:
+	case "f+ks":
 		n = f + k*s
-	case 10:
+	case "f+ks+1":
 		n = f + k*s + 1
 	default:
 		n = rapid.IntRange(0, f+(maxSegs-1)*s).Draw(rt, "len")
@@ -1321,6 +1323,80 @@ func TestKeysetReader(t *testing.T) {
 		class := fmt.Sprintf("keys=%d/%s/pos=%s/segs=%s/src=%s/r=%s", len(kt.members), kind, pos, segClass(prodCfg.NumSegments(len(pt))), rp.chunkKind, rp.bufKind)
 		evid.Case(class, true, evid.NewH().S(kt.String()).S(kind).B(ct).B(aad).S(rp.String()).Sum(), func() any {
 			return map[string]any{"keyset": kt.String(), "kind": kind, "producer": prodCfg.String(), "pt_len": len(pt), "ct_len": len(ct), "reads": rp.String(), "result": fmt.Sprint(res.err)}
+		})
+	})
+}
+
+// ---------------------------------------------------------------------------------------------
+// (6) just outside the domain: constructors return an error and do not panic
+// ---------------------------------------------------------------------------------------------
+
+func TestConstructorDomain(t *testing.T) {
+	rapid.Check(t, func(rt *rapid.T) {
+		detrand.Seed(rapid.Uint64().Draw(rt, "entropy"))
+		keyLevel := rapid.Bool().Draw(rt, "keylevel")
+		good := drawConfig(rt, "c", keyLevel)
+		bad := *good
+		kinds := []string{"segment-size-min-1", "segment-size-min-1", "segment-size-below", "main-key-short", "derived-size"}
+		if good.Type == streamref.CTR {
+			kinds = append(kinds, "tag-too-small", "tag-too-big")
+		}
+		kind := rapid.SampledFrom(kinds).Draw(rt, "kind")
+		min := streamref.MinSegmentSize(good.KeySize, good.TagLen(), good.Offset)
+		switch kind {
+		case "segment-size-min-1":
+			bad.SegmentSize = min - 1
+		case "segment-size-below":
+			bad.SegmentSize = rapid.IntRange(-2, min-1).Draw(rt, "seg")
+		case "main-key-short":
+			bad.MainKey = good.MainKey[:rapid.IntRange(0, good.KeySize-1).Draw(rt, "keylen")]
+		case "derived-size":
+			bad.KeySize = rapid.SampledFrom([]int{0, 1, 8, 15, 17, 24, 31, 33, 48, 64}).Draw(rt, "derived")
+			bad.SegmentSize = good.SegmentSize + 64
+		case "tag-too-small":
+			bad.TagSize = rapid.IntRange(0, 9).Draw(rt, "tag")
+		case "tag-too-big":
+			bad.TagSize = sym.HashByName(good.TagAlg)().Size() + rapid.IntRange(1, 8).Draw(rt, "tag")
+			bad.SegmentSize = good.SegmentSize + 80
+		}
+		if bad.Check() == nil {
+			rt.Fatalf("harness: %v is inside the domain", &bad)
+		}
+		var err error
+		var p tink.StreamingAEAD
+		func() {
+			defer func() {
+				if r := recover(); r != nil {
+					rt.Fatalf("constructor (keyLevel=%v) panicked on the out-of-domain configuration %v (%s): %v", keyLevel, &bad, kind, r)
+				}
+			}()
+			if keyLevel {
+				p, err = newKeyPrimitive(&bad)
+			} else {
+				p, err = newSubtle(&bad)
+			}
+		}()
+		if err == nil {
+			rt.Fatalf("constructor (keyLevel=%v) accepted the out-of-domain configuration %v (%s; the smallest legal segment size is %d): %T", keyLevel, &bad, kind, min, p)
+		}
+		refusal := err.Error()
+		// and the neighbour inside the domain is accepted
+		edge := *good
+		edge.SegmentSize = min
+		if keyLevel {
+			_, err = newKeyPrimitive(&edge)
+		} else {
+			_, err = newSubtle(&edge)
+		}
+		if err != nil {
+			rt.Fatalf("constructor (keyLevel=%v) refused the smallest legal segment size: %v: %v", keyLevel, &edge, err)
+		}
+		ty := "gcm"
+		if good.Type == streamref.CTR {
+			ty = "ctr"
+		}
+		evid.Case(fmt.Sprintf("%s/keylevel=%v/%s", ty, keyLevel, kind), true, evid.NewH().S(bad.String()).S(kind).Sum(), func() any {
+			return map[string]any{"config": bad.String(), "kind": kind, "error": refusal}
 		})
 	})
 }
